@@ -24,6 +24,23 @@ STRATA = {
     "out_of_range": (6000, 150000),
     "construct": (4000, 60000),
 }
+# functions that must leave their arguments untouched (vf.core.PurityMonitor; '!' = the object itself is watched too)
+PURE = [
+    "biotite.structure.bonds:BondList.merge!",
+    "biotite.structure.bonds:BondList.concatenate",
+    "biotite.structure.bonds:BondList.__getitem__!",
+    "biotite.structure.bonds:BondList.as_array!",
+    "biotite.structure.bonds:BondList.as_set!",
+    "biotite.structure.bonds:BondList.get_bonds!",
+    "biotite.structure.bonds:BondList.get_all_bonds!",
+    "biotite.structure.bonds:BondList.adjacency_matrix!",
+    "biotite.structure.bonds:BondList.bond_type_matrix!",
+    "biotite.structure.bonds:BondList.as_graph!",
+    "biotite.structure.bonds:BondList.__eq__!",
+    "biotite.structure.bonds:BondList.__contains__!",
+    "biotite.structure.bonds:BondList.copy!",
+    "biotite.structure.bonds:BondList.remove_bonds",
+]
 REQUIRED_ORACLES = ["views_vs_model", "index_error_expected", "state_unchanged_after_reject"]
 ASSUMPTIONS = [
     "row order of as_array()/get_bonds() is not part of the property (compared as sets)",
